@@ -199,8 +199,10 @@ def enum_isets(world, lib, depth):
     """every import set of nesting depth <= depth over the small alphabet of tiny_graph"""
     level = [("lib", lib)]
     out = list(level)
-    ids_choices = [["a"], ["ab"], ["a", "b"], ["p:a", "zz"], ["b", "ab", "p:a"]]
-    ren_choices = [[("a", "b")], [("a", "b"), ("b", "a")], [("ab", "z")], [("zz", "a")], [("p:a", "a")]]
+    four = ["a", "b", "ab", "p:a"]
+    ids_choices = [[x] for x in four] + [list(c) for c in itertools.combinations(four, 2)] + [["b", "ab", "p:a"], ["zz"], ["a", "zz"], []]
+    ren_choices = [[("a", "b")], [("a", "b"), ("b", "a")], [("ab", "z")], [("zz", "a")], [("p:a", "a")], [("a", "ab")],
+                   [("b", "p:b"), ("ab", "p:b")], [("a", "z"), ("a", "y")]]
     for _ in range(depth):
         nxt = []
         for i in level:
@@ -386,13 +388,13 @@ def run(ctx):
                     cases.append(dict(kind="resolve", text=iset_str(i), iset=i))
                 else:
                     t = rng.choice(MALFORMED).replace("{L}", iset_str(("lib", rng.choice(libs).name))).replace("{G}", gr["gid"])
-                    cases.append(dict(kind="resolve", text=t, iset=None))
+                    cases.append(dict(kind="resolve", text=t, iset=parse_iset(t)))
             for c in range(4):
                 a, b = rng.choice(PREFIXES + NAMES + [""]), rng.choice(NAMES + PREFIXES + [""])
                 cases.append(dict(kind=rng.choice(["drop", "append"]), a=a, b=b))
             for t in corpus:
-                t2 = t.replace("{L}", iset_str(("lib", libs[0].name)))
-                cases.append(dict(kind="resolve", text=t2, iset=None))
+                t2 = t.replace("{L}", iset_str(("lib", libs[0].name))).replace("{E}", libs[0].exports[0][0] if libs[0].exports else "a")
+                cases.append(dict(kind="resolve", text=t2, iset=parse_iset(t2)))
             # frame structure of the importing environment (function-level tie of Env.env_import)
             for c in range(3):
                 isets = [gen_iset(rng, world, rng.choice(libs).name, rng.choice([0, 1, 2, 3]), err=0.03) for _ in range(rng.choice([1, 1, 2, 3]))]
@@ -528,7 +530,7 @@ def run(ctx):
             line = [l for l in r.stdout.split("\n") if l.startswith("CASE ")]
             if line:
                 got = norm(parse_datum(line[0].split(" ", 2)[2])[0])
-            elif r.returncode not in (0,) and "rror" in (r.stderr or ""):
+            elif r.returncode not in (0,) and "error" in (r.stderr or "").lower():
                 got = ("IMPORT-ERROR", (r.stderr or "")[:200])
             else:
                 ctx.violation("driver-died", input=open(prog).read()[:300], observed="rc=%s %s" % (r.returncode, (r.stderr or "")[-300:]),
@@ -549,6 +551,39 @@ def _check_bodies(ctx, d, moddir, gr, libs, bodies, needed, casefile, top=False)
                               expected="library body evaluated exactly once", observed="%d evaluations" % k,
                               replay="C14_CASES=%s CHIBI_IGNORE_SYSTEM_PATH=1 CHIBI_MODULE_PATH=%s:%s LD_LIBRARY_PATH=%s %s/chibi-scheme %s | grep -c 'BODY %s'" % (
                                   casefile, os.path.join(d, "lib"), moddir, d, d, casefile if top else os.path.join(ROOT, "harness", "c14_driver.scm"), t))
+
+
+def parse_iset(text):
+    """import-set text -> python form, or None when it is not a well-formed import set (malformed stream)"""
+    try:
+        forms = G.read_all(text)
+        if len(forms) != 1:
+            return None
+        return _iset_of(forms[0][2])
+    except Exception:
+        return None
+
+
+def _iset_of(f):
+    if not isinstance(f, list) or not f or not all(isinstance(x, (G.Sym, list)) for x in f):
+        raise ValueError
+    h = f[0]
+    if isinstance(h, G.Sym) and str(h) in ("only", "except") and len(f) >= 2 and isinstance(f[1], list):
+        if not all(isinstance(x, G.Sym) for x in f[2:]):
+            raise ValueError
+        return (str(h), _iset_of(f[1]), [str(x) for x in f[2:]])
+    if isinstance(h, G.Sym) and str(h) == "rename" and len(f) >= 2 and isinstance(f[1], list):
+        prs = []
+        for x in f[2:]:
+            if not (isinstance(x, list) and len(x) == 2 and all(isinstance(y, G.Sym) for y in x)):
+                raise ValueError
+            prs.append((str(x[0]), str(x[1])))
+        return ("rename", _iset_of(f[1]), prs)
+    if isinstance(h, G.Sym) and str(h) in ("prefix", "drop-prefix") and len(f) == 3 and isinstance(f[1], list) and isinstance(f[2], G.Sym):
+        return (str(h), _iset_of(f[1]), str(f[2]))
+    if all(isinstance(x, G.Sym) for x in f) and str(h) not in MODS:
+        return ("lib", tuple(str(x) for x in f))
+    raise ValueError
 
 
 def _load_corpus():
